@@ -488,7 +488,9 @@ PROPS["C20"] = dict(
          "outcomes are compared: streaming PUSH->PULL / DEALER->ROUTER / ROUTER->DEALER with sizes below/at/above the buffer size and the "
          "16 KiB zero-copy threshold, HWM {2,16,1000}, fast or slow reader (accepted count, C01 oracle verdict, error kinds); nine handshake "
          "scenarios (compatible, incompatible type, PLAIN ok / bad password / vs NULL, raw garbage, raw ZMTP/2.0, raw >255 MORE frames, raw "
-         "peer stalled mid-greeting: handshake events, delivery, whether rzmq closed the connection); then 60/300 connect-send-close cycles "
+         "peer stalled mid-greeting: handshake events, delivery, whether rzmq closed the connection); two hostile peers that keep sending twice the "
+         "ring's size in chunks after a bad greeting, followed by a healthy PUSH->PULL pair that must deliver as on tokio (ring buffers given back); "
+         "then 60/300 connect-send-close cycles "
          "with RST peers on the io_uring backend; finally the registered-send-pool gauge must be 0 and /proc/self/fd back to its baseline. "
          "distinct = (scenario, seed).",
     assumptions=["kernel-side io_uring behaviour is whatever this VM's kernel does",
